@@ -125,6 +125,126 @@ theorem release_closes_everything (l : Life) (kind : String) (extra : List Out) 
   exact Or.inr ⟨d, hd, rfl⟩
 
 
+/-! ### whole lifecycles: any sequence of failures, time, hang-ups and shutdowns -/
+
+inductive LifeOp where
+  | poolClose (pool : String)
+  | tick (ns : Int)
+  | minerClose
+  | shutdown
+
+def lifeStep (l : Life) : LifeOp → Life × List Out
+  | .poolClose p => poolClose l p
+  | .tick ns => tick l ns
+  | .minerClose => minerClose l
+  | .shutdown => shutdown l
+
+def lifeRun : Life → List LifeOp → Life × List Out
+  | l, [] => (l, [])
+  | l, op :: ops => let r := lifeStep l op; let rr := lifeRun r.1 ops; (rr.1, r.2 ++ rr.2)
+
+/-- every failure of the active connection is answered by at most one dial; while the answer is
+outstanding (the session waits) one dial is still owed -/
+def DialBudget (l : Life) : Prop :=
+  l.dials + (match l.phase with | .waiting _ => 1 | _ => 0) ≤ l.faults
+
+theorem release_budget (l : Life) (kind : String) (extra : List Out) (h : l.dials ≤ l.faults) :
+    DialBudget (release l kind extra).1 := by
+  unfold DialBudget release; simpa using h
+
+theorem reconnect_budget (l : Life) (h : DialBudget l) : DialBudget (reconnect l).1 := by
+  unfold reconnect
+  cases hp : l.phase with
+  | relaying => exact h
+  | released k => exact h
+  | waiting due =>
+    have hb : l.dials + 1 ≤ l.faults := by unfold DialBudget at h; rw [hp] at h; exact h
+    simp only
+    split
+    · exact h
+    · split
+      · exact h
+      · split
+        · exact h
+        · split
+          · exact release_budget _ _ _ (by show l.dials ≤ l.faults; omega)
+          · split
+            · exact release_budget _ _ _ (by simpa using hb)
+            · split
+              · unfold DialBudget; simpa using hb
+              · split
+                · exact h
+                · unfold DialBudget; simpa using hb
+
+theorem poolClose_budget (l : Life) (p : String) (h : DialBudget l) : DialBudget (poolClose l p).1 := by
+  unfold poolClose
+  split
+  · rename_i hph _
+    split
+    · unfold DialBudget at h ⊢; rw [hph] at h; simp at h ⊢; omega
+    · unfold DialBudget at h ⊢; rw [hph] at h; simpa [hph] using h
+  · exact h
+
+theorem minerClose_budget (l : Life) (h : DialBudget l) : DialBudget (minerClose l).1 := by
+  unfold minerClose
+  split
+  · exact h
+  · rename_i hph; unfold DialBudget at h ⊢; rw [hph] at h; simpa [hph] using h
+  · rename_i hph; exact release_budget _ _ _ (by unfold DialBudget at h; rw [hph] at h; simpa using h)
+
+theorem shutdown_budget (l : Life) (h : DialBudget l) : DialBudget (shutdown l).1 := by
+  unfold shutdown
+  split
+  · exact h
+  · refine release_budget _ _ _ ?_
+    unfold DialBudget at h
+    split at h <;> omega
+
+theorem lifeStep_budget (l : Life) (op : LifeOp) (h : DialBudget l) : DialBudget (lifeStep l op).1 := by
+  cases op with
+  | poolClose p => exact poolClose_budget l p h
+  | tick ns =>
+    show DialBudget (tick l ns).1
+    unfold tick
+    exact reconnect_budget _ (by unfold DialBudget at h ⊢; exact h)
+  | minerClose => exact minerClose_budget l h
+  | shutdown => exact shutdown_budget l h
+
+/-- **Never more replacement connections than failures**, over every lifecycle of any length: the
+number of pool connections dialled because of a failure never exceeds the number of failures of the
+active connection, and while a reconnect is still outstanding it is strictly smaller. -/
+theorem dials_never_exceed_faults (l : Life) (ops : List LifeOp) (h : DialBudget l) :
+    DialBudget (lifeRun l ops).1 ∧ (lifeRun l ops).1.dials ≤ (lifeRun l ops).1.faults := by
+  have main : DialBudget (lifeRun l ops).1 := by
+    induction ops generalizing l with
+    | nil => exact h
+    | cons op ops ih => exact ih _ (lifeStep_budget l op h)
+  refine ⟨main, ?_⟩
+  unfold DialBudget at main; omega
+
+/-- a fresh session starts inside the budget -/
+theorem fresh_budget (s : Sess) : DialBudget { s := s } := by unfold DialBudget; simp
+
+/-- **Released is final**: once the session is over nothing is dialled, sent or closed any more,
+whatever happens afterwards. -/
+theorem released_is_final (l : Life) (k : String) (ops : List LifeOp) (h : l.phase = .released k) :
+    (lifeRun l ops).2 = [] ∧ (lifeRun l ops).1.phase = .released k := by
+  induction ops generalizing l with
+  | nil => exact ⟨rfl, h⟩
+  | cons op ops ih =>
+    have hs : lifeStep l op = (l, []) ∨ ((lifeStep l op).2 = [] ∧ (lifeStep l op).1.phase = .released k) := by
+      cases op with
+      | poolClose p => left; show poolClose l p = _; unfold poolClose; simp [h]
+      | tick ns => right; show (tick l ns).2 = [] ∧ (tick l ns).1.phase = _; unfold tick reconnect; simp [h]
+      | minerClose => left; show minerClose l = _; unfold minerClose; simp [h]
+      | shutdown => left; show shutdown l = _; unfold shutdown; simp [h]
+    unfold lifeRun
+    simp only
+    rcases hs with e | ⟨e1, e2⟩
+    · rw [e]; simpa using ih l h
+    · have i := ih (lifeStep l op).1 e2
+      rw [e1, i.1]; exact ⟨rfl, i.2⟩
+
 /-! ### facts about the source, regenerated on every run -/
 
 /-- every start of `Proxy.Run` stops the pipe that is left over and builds a fresh one: a relay direction that finished under
